@@ -8,7 +8,6 @@ import (
 	"crypto/sha256"
 	"fmt"
 	"io"
-	"os"
 	"sort"
 	"strings"
 	"syscall"
@@ -87,6 +86,10 @@ type Case struct {
 	Clients  [][]COp  `json:"clients"`
 	Epilogue bool     `json:"epilogue,omitempty"` // afterwards: end open transactions, autocommit read of every key
 	Sched    Schedule `json:"sched"`
+	// Light: run on the light backend (same use cases and pool, in-memory key-value provider instead of Badger)
+	Light bool `json:"light,omitempty"`
+	// Deep marks catalogue programs that get the full preemption bound in the quick tier as well
+	Deep bool `json:"deep,omitempty"`
 	// Window restricts forced preemptions to the concurrent phase when enumerating (bookkeeping only)
 	Note string `json:"note,omitempty"`
 }
@@ -111,6 +114,9 @@ type Run struct {
 // concurrent phase (relative step numbers) of the next Execute.
 var CountCands *[]int
 
+// CountWorkingOnly makes CountCands report only working goroutines (not parked pollers or timers).
+var CountWorkingOnly bool
+
 // HookEvent is one instrumented step inside fs_db, attributed to the goroutine that made it.
 type HookEvent struct {
 	G    int
@@ -122,7 +128,7 @@ type HookEvent struct {
 type runner struct {
 	events  []HookEvent
 	c       Case
-	w       *seq.World
+	b       backend
 	hist    []HOp
 	clock   int
 	txs     map[int]fs_db.Tx
@@ -147,7 +153,7 @@ func (r *runner) key(i int) string {
 // do executes one client operation and records it.
 func (r *runner) do(client, idx int, op COp, uniq int) {
 	h := HOp{Client: client, Index: idx, K: op.K, Slot: op.Slot, Lvl: op.Lvl, G: detsync.CurrentID()}
-	var s fs_db.Store = r.w.DB
+	var s fs_db.Store = r.b.DB()
 	var tx fs_db.Tx
 	if op.Slot > 0 {
 		tx = r.txs[op.Slot]
@@ -157,6 +163,10 @@ func (r *runner) do(client, idx int, op COp, uniq int) {
 	}
 	if op.K != "begin" && op.K != "gc" && op.Slot > 0 && tx == nil {
 		return // the slot was never begun (shrunk program): skip
+	}
+	// a client may be descheduled between two of its calls: scheduling point before the call is stamped
+	if client >= 0 {
+		detsync.Yield("client-op")
 	}
 	h.Call = r.tick()
 	var err error
@@ -171,7 +181,7 @@ func (r *runner) do(client, idx int, op COp, uniq int) {
 		}
 		h.Lvl = lvl
 		var t fs_db.Tx
-		t, err = r.w.DB.Begin(r.ctx, fsmodel.TxIsoLevel(lvl))
+		t, err = r.b.DB().Begin(r.ctx, fsmodel.TxIsoLevel(lvl))
 		if err == nil {
 			r.txs[op.Slot] = t
 		}
@@ -240,7 +250,7 @@ func (r *runner) do(client, idx int, op COp, uniq int) {
 	case "rollback":
 		err = tx.Rollback(r.ctx)
 	case "gc":
-		err = r.w.Cont.Cleaner().DeleteOld(r.ctx)
+		err = r.b.GC(r.ctx)
 	default:
 		panic("det: unknown op " + op.K)
 	}
@@ -292,8 +302,7 @@ func Execute(c Case, trace bool) *Run {
 	})
 	defer verifhook.SetPoint(nil)
 	defer verifhook.SetWrite(nil)
-	sc := seq.Case{Prof: "det", Keys: c.Keys, Roots: 1, MaxDir: 100}
-	var w *seq.World
+	var b backend
 	closed := false
 	pol := &phasePolicy{inner: c.Sched.Policy()}
 	if CountCands != nil {
@@ -301,12 +310,16 @@ func Execute(c Case, trace bool) *Run {
 	}
 	out := detsync.Run(detsync.Config{Policy: pol, Trace: trace}, func() {
 		var err error
-		w, err = seq.NewWorldNoHook(sc, &ev.Result{})
+		if c.Light {
+			b, err = newLight()
+		} else {
+			b, err = newHeavy(c.Keys)
+		}
 		if err != nil {
 			res.OpenErr = err.Error()
 			return
 		}
-		r.w = w
+		r.b = b
 		uniq := 1
 		for i, op := range c.Prologue {
 			r.do(-1, i, op, uniq)
@@ -332,6 +345,9 @@ func Execute(c Case, trace bool) *Run {
 		pol.on = false
 		if cp, ok := pol.inner.(*detsync.Counting); ok && CountCands != nil {
 			*CountCands = cp.N
+			if CountWorkingOnly {
+				*CountCands = cp.NW
+			}
 		}
 		res.EpiFrom = len(r.hist)
 		if c.Epilogue {
@@ -352,20 +368,16 @@ func Execute(c Case, trace bool) *Run {
 			}
 			r.do(-2, n, COp{K: "keys"}, 0)
 		}
-		w.Close()
+		b.Close()
 		closed = true
 	})
 	res.Out = out
 	res.Hist = r.hist
 	res.HookTrace = r.trace
 	res.Events = r.events
-	if w != nil && !closed {
-		// deadlock / panic: release the Badger directory from outside the scheduler
-		func() {
-			defer func() { recover() }()
-			w.Cont.Badger().Close()
-		}()
-		os.RemoveAll(w.Dir)
+	if b != nil && !closed {
+		// deadlock / panic: release the resources from outside the scheduler
+		b.Abandon()
 	}
 	return res
 }
